@@ -5,6 +5,7 @@ package c01
 
 import (
 	"fmt"
+	"math"
 	"sort"
 	"strconv"
 	"strings"
@@ -86,6 +87,11 @@ func genCase(t *rapid.T) Case {
 		switch Table[o].Kind {
 		case "rin":
 			hasIn = true
+		}
+		if o == "addi" {
+			hasIn = true
+		}
+		switch Table[o].Kind {
 		case "rout":
 			hasOut = true
 		}
@@ -98,6 +104,13 @@ func genCase(t *rapid.T) Case {
 	}
 	c.L = rapid.SampledFrom([]int{0, 0, 2, 4}).Draw(t, "L")
 	n := rapid.IntRange(1, 30).Draw(t, "len")
+	floaty := false
+	for _, o := range ops {
+		switch o {
+		case "addf", "multf", "divf", "jgt0f":
+			floaty = true
+		}
+	}
 	var sources []string
 	for _, o := range ops {
 		switch o {
@@ -129,6 +142,9 @@ func genCase(t *rapid.T) Case {
 				imm = uint64(1) << uint(c.Rsize-1)
 			default:
 				imm = rapid.Uint64().Draw(t, "imm") >> uint(64-c.Rsize)
+			}
+			if c.Rsize == 32 && floaty {
+				imm = uint64(math.Float32bits(float32(rapid.SampledFrom([]float64{0, 1, -1, 2, 0.5, -3.25, 1000, 1e-3, 7.5, -0.125, 3.1415927}).Draw(t, "fimm"))))
 			}
 			line += " " + regName(t, nreg, "ra") + " " + strconv.FormatUint(imm, 10)
 		case "rin":
@@ -211,11 +227,23 @@ func build(c Case, opt bool) (*built, error) {
 		conf.HwOptimizations = procbuilder.SetHwOptimization(conf.HwOptimizations, procbuilder.HwOptimizations(procbuilder.OnlyDestRegs))
 	}
 	b := &built{m: m, text: map[string]string{}}
-	b.text["a0.v"] = a.Write_verilog("a0", map[string]string{"processor": "p0", "rom": "p0rom", "ram": "p0ram"}, "iverilog")
-	b.text["p0.v"] = a.Conproc.Write_verilog(conf, a, "p0", "iverilog")
-	b.text["p0rom.v"] = a.Rom.Write_verilog(m, "p0rom", "iverilog")
-	if c.L != 0 {
-		b.text["p0ram.v"] = a.Ram.Write_verilog(conf, m, "p0ram", "iverilog")
+	// some opcodes write auxiliary Verilog files (FPU IP) into the CWD while the processor is rendered
+	extra, err := gen.InScratch(func() error {
+		b.text["a0.v"] = a.Write_verilog("a0", map[string]string{"processor": "p0", "rom": "p0rom", "ram": "p0ram"}, "iverilog")
+		b.text["p0.v"] = a.Conproc.Write_verilog(conf, a, "p0", "iverilog")
+		b.text["p0rom.v"] = a.Rom.Write_verilog(m, "p0rom", "iverilog")
+		if c.L != 0 {
+			b.text["p0ram.v"] = a.Ram.Write_verilog(conf, m, "p0ram", "iverilog")
+		}
+		return nil
+	})
+	if err != nil {
+		return nil, err
+	}
+	for n, t := range extra {
+		if strings.HasSuffix(n, ".v") {
+			b.text["extra_"+n] = t
+		}
 	}
 	return b, nil
 }
@@ -271,10 +299,43 @@ func simTrace(c Case, m *procbuilder.Machine, maxRet int) ([]snap, []int, string
 		}
 		pc := int(vm.Pc)
 		f := strings.Fields(c.Prog[pc])
-		if f[0] == "div" || f[0] == "mod" {
+		if f[0] == "div" || f[0] == "mod" || f[0] == "divp" {
 			src, _ := strconv.Atoi(f[2][1:])
 			if gen.U64(vm.Registers[src]) == 0 {
 				stop = "before-division-by-zero"
+				break
+			}
+		}
+		if f[0] == "addf" || f[0] == "multf" || f[0] == "divf" {
+			d, _ := strconv.Atoi(f[1][1:])
+			sr, _ := strconv.Atoi(f[2][1:])
+			a := math.Float32frombits(uint32(gen.U64(vm.Registers[d])))
+			b := math.Float32frombits(uint32(gen.U64(vm.Registers[sr])))
+			var r float32
+			switch f[0] {
+			case "addf":
+				r = a + b
+			case "multf":
+				r = a * b
+			default:
+				r = a / b
+			}
+			if !tame(a) || !tame(b) || !tame(r) || (f[0] == "divf" && b == 0) {
+				stop = "before-float-special-value"
+				break
+			}
+		}
+		if f[0] == "jgt0f" {
+			d, _ := strconv.Atoi(f[1][1:])
+			if !tame(math.Float32frombits(uint32(gen.U64(vm.Registers[d])))) {
+				stop = "before-float-special-value"
+				break
+			}
+		}
+		if f[0] == "ro2rri" {
+			sr, _ := strconv.Atoi(f[2][1:])
+			if gen.U64(vm.Registers[sr]) >= uint64(len(c.Prog)) {
+				stop = "before-rom-address-out-of-program"
 				break
 			}
 		}
@@ -286,7 +347,7 @@ func simTrace(c Case, m *procbuilder.Machine, maxRet int) ([]snap, []int, string
 		for o := 0; o < c.M; o++ {
 			vm.OutputsRecv[o] = vm.OutputsValid[o]
 		}
-		waiting := f[0] == "i2rw" || f[0] == "r2owa"
+		waiting := Waiting[f[0]]
 		retired := !waiting || int(vm.Pc) != pc
 		if retired {
 			s := snap{pc: vm.Pc}
@@ -497,6 +558,16 @@ func prop(c Case) pbt.Outcome {
 	}
 	sort.Strings(ls)
 	return pbt.Outcome{NonTrivial: nt, Labels: ls}
+}
+
+// tame: +0 or a normal finite float32 of moderate magnitude (the FPU IP and Go agree on these; NaN,
+// infinities, subnormals and -0 are outside the compared domain)
+func tame(x float32) bool {
+	if x == 0 {
+		return !math.Signbit(float64(x))
+	}
+	a := math.Abs(float64(x))
+	return !math.IsNaN(a) && !math.IsInf(a, 0) && a >= 1e-30 && a <= 1e30
 }
 
 func prev(tr []snap, k int) string {
